@@ -8,6 +8,21 @@ use crate::gen::{self, Step};
 use crate::refmodel::*;
 use serde_json::{json, Value};
 
+static WATCH: std::sync::OnceLock<std::collections::HashSet<u64>> = std::sync::OnceLock::new();
+static FOUND: std::sync::Mutex<Vec<(u64, u64, String)>> = std::sync::Mutex::new(Vec::new());
+
+/// Record (hash, identity) for the global collision map; in the second pass (only after a
+/// collision was found) also remember the FEN of every position whose hash is being watched.
+fn note(ctx: &mut Ctx, hash: u64, p: &Pos) {
+    let k = key_of(p);
+    ctx.bag.push((hash, k));
+    if let Some(w) = WATCH.get() {
+        if w.contains(&hash) {
+            FOUND.lock().unwrap().push((hash, k, p.fen()));
+        }
+    }
+}
+
 /// Position identity on the reference side (same notion as the hash's documented inputs).
 fn key_of(p: &Pos) -> u64 {
     gen::rep_key(p)
@@ -30,7 +45,7 @@ fn sibling(ctx: &mut Ctx, s: &Step, h: u64, sib: &Pos, kind: &str, distinct_ep: 
     if matches!(kind, "sibling:castling-right-dropped" | "sibling:en-passant-file" | "sibling:side-to-move") {
         ctx.nontrivial(fp(&(s.pos, sib)));
     }
-    ctx.bag.push((b.get_hash(), key_of(sib)));
+    note(ctx, b.get_hash(), sib);
     if b.get_hash() == h {
         ctx.fail(
             &format!("hash:collision-{}", kind),
@@ -48,7 +63,13 @@ pub fn check_step(ctx: &mut Ctx, s: &Step) -> Result<(), Violation> {
     let p = s.pos;
     let h = s.board.get_hash();
     ctx.eval();
-    ctx.bag.push((h, key_of(p)));
+    {
+        let mut q = p.clone();
+        if !p.ep_adjacent_pawn() {
+            q.ep = None;
+        }
+        note(ctx, h, &q);
+    }
     // only a sample of positions gets the full sibling treatment
     let pf = fp(p);
     if pf % 4 != 0 {
@@ -141,7 +162,7 @@ pub fn check_step(ctx: &mut Ctx, s: &Step) -> Result<(), Violation> {
                 ctx.evals_add(1);
                 ctx.class("sibling:castling-right-dropped");
                 ctx.nontrivial(fp(&(p, x.castle)));
-                ctx.bag.push((b.get_hash(), key_of(&x)));
+                note(ctx, b.get_hash(), &x);
                 for (oh, oc) in &seen {
                     if *oh == b.get_hash() {
                         ctx.fail("hash:collision-sibling:castling-right-dropped", format!("castling rights {:?} and {:?} give the same hash", oc, x.castle), s.case_with(json!({"sibling": x.fen()})))?;
@@ -173,7 +194,7 @@ pub fn check_step(ctx: &mut Ctx, s: &Step) -> Result<(), Violation> {
             if let Ok(b) = bridge::board_via_builder(&x) {
                 if b.en_passant().is_some() {
                     ep_variants.push((x.ep, b.get_hash()));
-                    ctx.bag.push((b.get_hash(), key_of(&x)));
+                    note(ctx, b.get_hash(), &x);
                 }
             }
         }
@@ -236,11 +257,40 @@ pub fn run(cfg: &Cfg) -> i32 {
         }
     }
     if collisions > 0 {
+        // second, identical pass that remembers the positions behind the colliding hashes, so
+        // that the replay file names a concrete pair
+        let mut watch = std::collections::HashSet::new();
+        for w in all.windows(2) {
+            if w[0].0 == w[1].0 && w[0].1 != w[1].1 && watch.len() < 64 {
+                watch.insert(w[0].0);
+            }
+        }
+        let _ = WATCH.set(watch);
+        let _ = engine::run_shards(cfg, |shard, ctx, seedf| {
+            ctx.frozen = true;
+            common::golden(cfg, shard, ctx, &check_step)?;
+            common::histories(ctx, seedf(1), cfg.per_shard(120_000, 800_000), 6, 48, None, &check_step)?;
+            Ok(())
+        });
+        let mut found = FOUND.lock().unwrap().clone();
+        found.sort();
+        found.dedup();
+        let mut pair: Option<(String, String, u64)> = None;
+        for w in found.windows(2) {
+            if w[0].0 == w[1].0 && w[0].1 != w[1].1 {
+                pair = Some((w[0].2.clone(), w[1].2.clone(), w[0].0));
+                break;
+            }
+        }
+        let case = match &pair {
+            Some((a, b, h)) => json!({"positions": [a, b], "hash": format!("{:#018x}", h)}),
+            None => json!({"note": "global map collision; rerun with the same VERIF_SEED to reproduce", "seed": cfg.seed}),
+        };
         let v = Violation {
             prop: cfg.id.clone(),
             sig: "hash:global-collision".into(),
-            what: format!("{} pairs of distinct positions share a 64-bit hash among {} distinct positions (expected by chance: {:.2e})", collisions, distinct_positions, (distinct_positions as f64).powi(2) / 2f64.powi(65)),
-            case: json!({"note": "global map collision; rerun with the same VERIF_SEED to reproduce", "seed": cfg.seed}),
+            what: format!("{} pairs of distinct positions share a 64-bit hash among {} distinct positions (expected by chance: {:.2e}); example pair: {:?}", collisions, distinct_positions, (distinct_positions as f64).powi(2) / 2f64.powi(65), pair.as_ref().map(|p| (&p.0, &p.1))),
+            case,
         };
         report.violations.push(v);
     }
@@ -267,6 +317,19 @@ pub fn run(cfg: &Cfg) -> i32 {
 }
 
 pub fn replay(ctx: &mut Ctx, case: &Value) -> Result<(), Violation> {
+    if let Some(ps) = case.get("positions").and_then(|p| p.as_array()) {
+        let fens: Vec<&str> = ps.iter().filter_map(|x| x.as_str()).collect();
+        if fens.len() == 2 {
+            let a = Pos::from_fen(fens[0]).map_err(|e| ctx.violation("INFRA", e, Value::Null))?;
+            let b = Pos::from_fen(fens[1]).map_err(|e| ctx.violation("INFRA", e, Value::Null))?;
+            if let (Ok(x), Ok(y)) = (bridge::board_via_builder(&a), bridge::board_via_builder(&b)) {
+                if key_of(&a) != key_of(&b) && x.get_hash() == y.get_hash() {
+                    return ctx.fail("hash:global-collision", format!("{:?} and {:?} are different positions with the same hash {:#018x}", fens[0], fens[1], x.get_hash()), case.clone());
+                }
+            }
+            return Ok(());
+        }
+    }
     let visit = |ctx: &mut Ctx, s: &Step| {
         // force the sibling treatment regardless of the sampling rule
         let r = check_step_forced(ctx, s);
